@@ -99,9 +99,15 @@ def scn_names(ctx):
     in_force = "base-name"
     expected = []
     obj = ex
+    from more_executors.futures import f_return
+    flat = bool(ctx.choice(2, "flat_bind")) if bind_at is not None else False
+
+    def do_bind(o):
+        return o.flat_bind(lambda v=1: f_return(v)) if flat else o.bind(lambda v=1: v)
+
     for i, ln in enumerate(layers):
         if bind_at == i:
-            obj = obj.bind(lambda v=1: v)
+            obj = do_bind(obj)
         nm = None
         if named[i]:
             nm = "layer%d-name" % i
@@ -110,7 +116,7 @@ def scn_names(ctx):
         if ln in PREFIX:
             expected.append((PREFIX[ln], in_force))
     if bind_at is not None and bind_at >= len(layers):
-        obj = obj.bind(lambda v=1: v)
+        obj = do_bind(obj)
     names = [t.name for t in ctx.sched.threads]
     for pfx, nm in expected:
         ctx.check("thread-name-carries-name-in-force", any(n.startswith(pfx) and nm in n for n in names),
